@@ -194,6 +194,13 @@ fn rand_stream(rng: &mut Rng, rep: &mut Report) -> (Vec<u8>, usize) {
                 tape.extend(refs::enc_crlf(a, t, &d).to_ascii_lowercase());
                 rep.count("lines/lower_case");
             }
+            7 if rng.chance(1, 2) => {
+                // noise in front of an otherwise perfect frame, on the same line (what a listener sees who joined mid-frame)
+                let noise: &[u8] = *rng.pick(&[&b"\x00\x00"[..], b"F7F", b" ", b"::", b"\xFF", b"0", b"\r"]);
+                tape.extend_from_slice(noise);
+                tape.extend(refs::enc_crlf(a, t, &d));
+                rep.count("lines/leading_noise");
+            }
             5 => {
                 tape.extend(refs::enc(a, t, &d));
                 tape.extend_from_slice(b"\r\r\n"); // doubled CR
@@ -366,6 +373,21 @@ fn exhaustive_read(which: usize, rep: &mut Report) {
             run_read_case(&ReadCase { tape: short.clone(), boundaries: vec![], faults: vec![(7, ReadFault::Interrupted, times)], reads: 3, label: "thousands_of_interrupts_in_one_line" }, rep);
             run_read_case(&ReadCase { tape: short, boundaries: vec![], faults: vec![(0, ReadFault::Interrupted, times / 2), (14, ReadFault::Interrupted, times / 2), (15, ReadFault::Interrupted, 3)], reads: 3, label: "thousands_of_interrupts_in_one_line" }, rep);
             run_read_case(&ReadCase { tape: long.clone(), boundaries: vec![], faults: vec![(100, ReadFault::Interrupted, times / 3), (400, ReadFault::Interrupted, times / 3), (522, ReadFault::Interrupted, times / 3), (523 + 10, ReadFault::Interrupted, times)], reads: 6, label: "thousands_of_interrupts_in_one_line" }, rep);
+        }
+    }
+    // a line far longer than any frame (no LF for 524 .. 70 000 bytes), then two good frames: one read takes the whole
+    // line and not a byte more, however long it is
+    if which == 0 {
+        let good = refs::enc_crlf(0x0003, 0x04, &[0x07]);
+        for n in [524usize, 599, 600, 601, 1023, 1024, 4095, 4096, 4097, 65_535, 65_536, 70_000] {
+            for filler in [b'A', b':', 0xFF] {
+                let mut tape = vec![b':'];
+                tape.extend(std::iter::repeat(filler).take(n - 1));
+                tape.extend_from_slice(b"\r\n");
+                tape.extend_from_slice(&good);
+                tape.extend_from_slice(&good);
+                run_read_case(&ReadCase { tape, boundaries: vec![n / 2], faults: vec![(n / 3, ReadFault::Interrupted, 2)], reads: 4, label: "overlong_line_then_good_frames" }, rep);
+            }
         }
     }
     // exactly k undecodable lines of one kind in a row, then two good frames: each read is judged as ever
@@ -710,6 +732,7 @@ pub fn run(ctx: &Ctx) -> Outcome {
         floor("exhaustive write set", report.get("exhaustive_write_sets_done") == 1, report.get("exhaustive_write_sets_done")),
         floor("the same frame on consecutive lines; wrong terminators made of CR / blank / tab", report.get("lines/same_frame_as_previous_line") > 1000 && report.get("lines/doubled_cr") > 100 && report.get("lines/blank_near_terminator") > 100, report.get("lines/same_frame_as_previous_line")),
         floor("good frames after exactly k undecodable lines / k failing reads (k = 1..257)", report.get("read_cases/k_undecodable_lines_then_good_ones") == 40 && report.get("read_cases/k_failing_reads_then_good_ones") == 8, report.get("read_cases/k_undecodable_lines_then_good_ones")),
+        floor("lines of 524 .. 70 000 bytes without a line feed, then good frames; noise in front of a frame on the same line", report.get("read_cases/overlong_line_then_good_frames") == 36 && report.get("lines/leading_noise") > 100, report.get("lines/leading_noise")),
         floor("300 to 70 000 interrupted reads during one line", report.get("read_cases/thousands_of_interrupts_in_one_line") == 12, report.get("read_cases/thousands_of_interrupts_in_one_line")),
         floor("maximum-length lines read through 1..6 interrupted reads", report.get("read_cases/maximum_length_frames_interrupted") == 84, report.get("read_cases/maximum_length_frames_interrupted")),
         floor("70 000 lines through one reader and 70 000 frames into one sink", report.get("marathon_lines_read") == 70_000 && report.get("marathon_frames_written") == 70_000, format!("{} / {}", report.get("marathon_lines_read"), report.get("marathon_frames_written"))),
